@@ -10,6 +10,8 @@ RULE = ("streams from the obfuscating and the conforming generators (pipelines, 
         "every single cut position (exhaustive up to 400 bytes, sampled above), byte-by-byte, line-wise, around every CR/LF, "
         "drawn multi-cuts and drawn 2-cuts (thorough: all 2-cuts for streams <=90 bytes); oracle: identical observation list "
         "(method, target, version, headers, body bytes, body error class, trailers, end offset) and terminal outcome class. "
+        "Plus every truncation of 5 conforming pipelines under the same feeds, and a real-socket slice (4 requests on one keep-alive "
+        "connection per worker class, written whole or in pieces with pauses: same responses). "
         "non-trivial = the baseline yields a request or rejects after the first line, and >=10 segmentations were compared")
 ASSUMPTIONS = [
     "reads are non-empty and at most 8192 bytes (the quantifier); the baseline is the 8192-byte block feed",
@@ -103,6 +105,118 @@ def _general(tier):
     })
 
 
+BASES = [
+    "POST /one HTTP/1.1\r\nHost: a\r\nTransfer-Encoding: chunked\r\n\r\nb\r\nhello world\r\n0\r\n\r\nGET /two HTTP/1.1\r\nHost: a\r\n\r\n",
+    "POST /one HTTP/1.1\r\nHost: a\r\nTransfer-Encoding: chunked\r\n\r\nb\r\nhello world\r\n0\r\nVary: *\r\n\r\nGET /two HTTP/1.1\r\nHost: a\r\n\r\n",
+    "POST /one HTTP/1.1\r\nHost: a\r\nTransfer-Encoding: chunked\r\n\r\n5;x=y\r\nhello\r\n6\r\n world\r\n0;z\r\nX-A: 1\r\nX-B: 2\r\n\r\nPOST /two HTTP/1.1\r\nContent-Length: 3\r\n\r\nabc",
+    "POST /one HTTP/1.1\r\nHost: a\r\nContent-Length: 11\r\n\r\nhello world" + "GET /two HTTP/1.0\r\nConnection: keep-alive\r\n\r\n",
+    "PUT /one HTTP/1.1\r\nContent-Length: 0\r\nX-Long: " + "v" * 70 + "\r\n\r\nGET /two HTTP/1.1\r\n\r\n",
+]
+
+
+def extra_cases(tier, seed, shard, nshards):
+    """every prefix of a few conforming pipelines (the peer goes away at that byte), each under all the segmentations of run_case;
+    and a real-socket slice: the same requests written to a real worker in one piece or in pieces with pauses"""
+    n = 0
+    for b in BASES:
+        for cut in range(1, len(b) + 1):
+            for cfg in ((0,) if tier == "quick" else (0, 4, 6)):
+                n += 1
+                if n % nshards == shard:
+                    yield {"stream": b[:cut], "cfg": cfg, "multi": [[cut // 2, cut - 1], [cut - 2, cut - 1, cut - 3]], "pairs": [[cut - 1, cut - 2], [cut - 3, cut - 5]],
+                           "all_pairs": False}
+    for i, k in enumerate(["sync", "gthread", "gevent", "eventlet"]):
+        if (i + seed) % nshards == shard:
+            yield {"engine": "R", "kind": k, "pause": 0.04, "rseed": seed}
+
+
+EXHAUSTIVE_NOTE = ("every prefix (truncation at every byte) of %d conforming pipelines (chunked with and without trailers / extensions, "
+                   "Content-Length, empty body) is compared under all single cuts, byte-wise, line-wise and multi-cut feeds; the real-socket "
+                   "slice runs once per worker class" % len(BASES))
+
+REAL_REQUESTS = [
+    b"GET /echo/a?i=1 HTTP/1.1\r\nHost: x\r\nX-Long: " + b"h" * 40 + b"\r\n\r\n",
+    b"POST /echo/b HTTP/1.1\r\nHost: x\r\nContent-Length: 26\r\n\r\nabcdefghijklmnopqrstuvwxyz",
+    b"POST /echo/c HTTP/1.1\r\nHost: x\r\nTransfer-Encoding: chunked\r\n\r\n5\r\nhello\r\n6;e=1\r\n world\r\n0\r\nX-T: 1\r\n\r\n",
+    b"PUT /echo/d HTTP/1.1\r\nHost: x\r\nContent-Length: 3000\r\n\r\n" + b"z" * 3000,
+]
+
+
+def run_real(case):
+    """engine R: one keep-alive connection per segmentation; every request is written whole, or cut at a few places with a pause
+    between the pieces (so that each piece is a network read of its own): the responses must be the same"""
+    import hashlib
+    import time
+    from vlib import renv, ref_response
+    kind = case["kind"]
+    srv = renv.Server(kind=kind, workers=1, bind="tcp", graceful=2, timeout=30, threads=2 if kind == "gthread" else None, keepalive=5)
+    vio = []
+    counts = {"real-feeds": 0}
+
+    def exchange(c, raw, cuts):
+        pieces = [raw[a:b] for a, b in zip([0] + cuts, cuts + [len(raw)])]
+        for j, pc in enumerate(pieces):
+            if j:
+                time.sleep(case.get("pause", 0.04))
+            c.sendall(pc)
+        c.settimeout(5.0)
+        data = b""
+        while True:
+            r = ref_response.parse_response(data, 0, "GET") if data else None
+            if r is not None and r.ok and r.complete:
+                return r.status, r.body
+            try:
+                d = c.recv(65536)
+            except OSError as e:
+                return "error:%s" % type(e).__name__, data
+            if not d:
+                return "closed", data
+            data += d
+
+    try:
+        if not srv.wait_ready():
+            return Outcome([], False, ["engine:R", "inconclusive:not-ready"])
+        expected = None
+        h = int(hashlib.sha1(("%s|%s" % (kind, case.get("rseed", 0))).encode()).hexdigest()[:6], 16)
+        variants = [("whole", lambda raw, i: [])]
+        for v in range(6):
+            variants.append(("cut-%d" % v, lambda raw, i, v=v: sorted(set([1 + (h + 7 * v + 13 * i) % (len(raw) - 1)]))))
+        variants.append(("in-terminator", lambda raw, i: [raw.index(b"\r\n\r\n") + 2]))
+        variants.append(("after-head", lambda raw, i: [raw.index(b"\r\n\r\n") + 4] if raw.index(b"\r\n\r\n") + 4 < len(raw) else [len(raw) - 1]))
+        variants.append(("three-pieces", lambda raw, i: sorted(set([len(raw) // 3, 2 * len(raw) // 3]))))
+        variants.append(("after-request-line", lambda raw, i: [raw.index(b"\r\n") + 2]))
+        for name, cutter in variants:
+            c = srv.connect(5.0)
+            got = []
+            try:
+                for i, raw in enumerate(REAL_REQUESTS):
+                    if kind == "sync" and i:          # the sync worker serves one request per connection
+                        c.close()
+                        c = srv.connect(5.0)
+                    got.append(exchange(c, raw, cutter(raw, i)))
+                    counts["real-feeds"] += 1
+                    if not isinstance(got[-1][0], int):
+                        break
+            finally:
+                c.close()
+            norm_got = [(st, body.split(b" x=")[0] if isinstance(body, bytes) else body) for st, body in got]
+            if expected is None:
+                expected = norm_got
+                if any(st != 200 for st, _ in norm_got):
+                    vio.append(Violation("segmentation-independence", "C06/real:whole-requests-not-served:" + kind,
+                                         observed={"got": [(st, b[:80]) for st, b in got]}, expected="200 x %d" % len(REAL_REQUESTS)))
+                    break
+            elif norm_got != expected:
+                k = min([i for i, (a, b) in enumerate(zip(norm_got, expected)) if a != b] or [len(norm_got)])
+                vio.append(Violation("segmentation-independence", "C06/real:response-depends-on-segmentation:%s:request-%d" % (kind, k + 1),
+                                     observed={"segmentation": name, "got": [(st, b[:80]) for st, b in got], "log_tail": srv.logtext()[-600:]},
+                                     expected=[(st, b[:80]) for st, b in expected]))
+                break
+        return Outcome(vio, True, ["engine:R", "kind:" + kind], key="R|" + kind, counts=counts, sample={"case": case, "variants": len(variants)})
+    finally:
+        srv.cleanup()
+
+
 def norm(obs):
     reqs, terminal = obs
     return ([(r["method"], r["uri"], r["version"], tuple(r["headers"]), r["body"], r["body_error"],
@@ -114,6 +228,8 @@ def blocks(n, size=8192):
 
 
 def run_case(case):
+    if case.get("engine") == "R":
+        return run_real(case)
     stream = case["stream"].encode("latin-1")
     cfg = cfg_for(case["cfg"])
     n = len(stream)
